@@ -239,6 +239,7 @@ def rule_connection(ctx):
     wal = any(re.fullmatch(r"PRAGMA journal_mode\s*=\s*WAL", t) for t in cond)
     ctx.check(bool(rw) and wal, fi.fq, "WAL journal on every read-write connection", "journal mode is not WAL for read-write connections", "WAL")
     ctx.check("con.isolation_level = None" in ast.unparse(fi.node), fi.fq, "autocommit mode: transactions start only at BEGIN IMMEDIATE", "legacy implicit transactions are back", "isolation_level None")
+    shared.check_rollback_possible(ctx, "a transaction interrupted by the kill is not rolled back there when the database is opened again")
     ae = ctx.prog.func("sqlite3.DBSession.__aenter__")
     ctx.check("con.execute('BEGIN IMMEDIATE')" in ast.unparse(ae.node), ae.fq, "BEGIN IMMEDIATE", "transactions are not opened with BEGIN IMMEDIATE", "ok")
 
